@@ -16,7 +16,7 @@ use core::pin::{pin, Pin};
 use core::task::{Context, Poll, RawWaker, RawWakerVTable, Waker};
 use std::panic::{catch_unwind, AssertUnwindSafe};
 
-use dev::{Dev, DevRaw, REv};
+use dev::{Dev, DevRaw, DevRaw1, DevRaw2, DevRaw5, REv};
 use microscpi::ErrorQueue;
 use microscpi::{Adapter, Error, Interface, Write};
 use oracle::{Exp, OEv, OTree, RunSt, Tok};
@@ -50,7 +50,7 @@ pub enum Mode {
     RunCap(usize),
     /// Interface::run on the device that owns the crate's StaticErrorQueue directly (no logging wrapper): handler
     /// calls, responses, and the queue content drained at the end are compared
-    RunRaw,
+    RunRaw(usize),
     /// the messages of the stream handed to Interface::run one at a time (same device, a fresh writer per message);
     /// reference of the second sentence of C07. Invalid (nothing compared) when a message is left partly unconsumed.
     RunEach(usize),
@@ -128,13 +128,16 @@ pub fn run_real(sc: &Scenario) -> RealObs {
                 o.out_std = Some(v); o.log_std = Some(d2.log.borrow().clone());
                 if rest2 != rest { o.log_std = Some(vec![REv::Call(format!("<rest {rest2} != {rest}>"))]); }
             },
-            Mode::RunRaw => {
-                let mut d = DevRaw::new();
-                let mut w = LogWriter { out: vec![], flushes: vec![] };
-                let rest = block_on(d.run(&sc.input, &mut w)).len();
-                o.log = d.log.borrow().clone(); o.out = w.out; o.flushes = w.flushes; o.rest = Some(rest);
-                o.final_queue.push(d.queue.error_count() as i16);
-                while let Some(e) = d.queue.pop_error() { o.final_queue.push(e.number()); if o.final_queue.len() > 64 { break; } }
+            Mode::RunRaw(qcap) => {
+                macro_rules! go { ($t:ident) => {{
+                    let mut d = $t::new();
+                    let mut w = LogWriter { out: vec![], flushes: vec![] };
+                    let rest = block_on(d.run(&sc.input, &mut w)).len();
+                    o.log = d.log.borrow().clone(); o.out = w.out; o.flushes = w.flushes; o.rest = Some(rest);
+                    o.final_queue.push(d.queue.error_count() as i16);
+                    while let Some(e) = d.queue.pop_error() { o.final_queue.push(e.number()); if o.final_queue.len() > 64 { break; } }
+                }} }
+                match *qcap { 1 => go!(DevRaw1), 2 => go!(DevRaw2), 5 => go!(DevRaw5), _ => go!(DevRaw) }
             },
             Mode::RunEach(cap) => {
                 // an unbounded writer; the relation is claimed only when every message and every message's response
@@ -274,8 +277,9 @@ pub fn check(t: &OTree, sc: &Scenario) -> (RealObs, Vec<Diff>, String) {
     }
     match &sc.mode {
         Mode::RunEach(_) => {},
-        Mode::RunRaw => {
+        Mode::RunRaw(qcap) => {
             let mut st = RunSt::new(None);
+            st.dev.qcap = *qcap;
             let rest = oracle::spec_run(t, 0, 0, &sc.input, &mut st);
             exp_txt = format!("calls {:?} out {:?} rest {rest} final queue {:?}", st.log.iter().filter(|e| matches!(e, OEv::Call(_))).collect::<Vec<_>>(), st.out, st.dev.queue);
             cmp_log(&real.log, &st.log, true, false, &mut diffs);
@@ -404,7 +408,7 @@ fn unhex(s: &str) -> Vec<u8> { (0..s.len() / 2).map(|i| u8::from_str_radix(&s[2 
 pub fn sc_json(sc: &Scenario) -> String {
     let mode = match &sc.mode {
         Mode::Run => "\"mode\":\"run\"".to_string(),
-        Mode::RunRaw => "\"mode\":\"runraw\"".to_string(),
+        Mode::RunRaw(c) => format!("\"mode\":\"runraw\",\"cap\":{c}"),
         Mode::RunEach(c) => format!("\"mode\":\"runeach\",\"cap\":{c}"),
         Mode::RunCap(c) => format!("\"mode\":\"runcap\",\"cap\":{c}"),
         Mode::Process { n, cuts, yields, fail_at } => format!("\"mode\":\"process\",\"n\":{n},\"cuts\":{cuts:?},\"yields\":{yields},\"fail_at\":{}", fail_at.map(|x| x.to_string()).unwrap_or("null".into())),
@@ -425,7 +429,7 @@ fn sc_parse(s0: &str) -> Scenario {
     let input = unhex(&field("input_hex").expect("input_hex"));
     let mode = match field("mode").as_deref() {
         Some("run") => Mode::Run,
-        Some("runraw") => Mode::RunRaw,
+        Some("runraw") => Mode::RunRaw(field("cap").map(|x| x.parse().unwrap()).unwrap_or(3)),
         Some("runeach") => Mode::RunEach(field("cap").unwrap().parse().unwrap()),
         Some("runcap") => Mode::RunCap(field("cap").unwrap().parse().unwrap()),
         Some("process") => Mode::Process {
